@@ -430,9 +430,21 @@ func TestCheck(t *testing.T) {
 		judgeBurst(r, t, bt)
 		return
 	}
+	var so slowtoT
+	if mon.ReplayCase(&so) && so.SlowTO {
+		for k := 0; k < 20; k++ { // the scenario depends on a random choice inside the call
+			judgeSlowTO(r, t, so)
+		}
+		return
+	}
 	if mon.ReplayCase(&sc) {
 		judge(r, t, sc)
 		return
+	}
+	for i, so := range slowtoGrid(r.Quick()) {
+		if r.Mine(i) {
+			judgeSlowTO(r, t, so)
+		}
 	}
 	for i, b := range burstGrid() {
 		if r.Mine(i) {
